@@ -10,6 +10,7 @@ import Psa.FixtureCheck
 import Psa.MetricsIO
 import Psa.Generated.Tables
 import Psa.Deps
+import Psa.Review
 /-! psa-driver: one JSON object per input line, one JSON object per output line. -/
 open Lean PSA PSA.IO
 
@@ -117,6 +118,15 @@ def handle (j : Json) : R Json := do
         | .mm 0 _ => []
         | .mm 1 _ | .latest => spec cs q.1 (clampV reg.maxVersion.minor q.2)
         | .mm _ _ => spec cs q.1 reg.maxVersion.minor))).toArray)]
+  | "review" =>
+    -- a JSON-object review body as a list of top-level members [key, type, string?]
+    let doc ← arrOf (fun m => do
+      let k := strD m "k"
+      let v : Review.TV ← match (← (← fld m "t").getStr?) with
+        | "null" => pure .null | "str" => pure (.str (strD m "s")) | "obj" => pure (.obj true) | "objBad" => pure (.obj false)
+        | "other" => pure .other | x => throw s!"review: unknown member type {x}"
+      return (k, v)) (fldD j "doc")
+    return Json.mkObj [("status", Json.num (Review.status doc : JsonNumber))]
   | "getNs" =>
     -- the namespace getter of admission/namespace.go: lister ∈ none | found | notFound | failed (found answers carry a marker)
     let look (s : String) (mark : Nat) : R (Deps.Lookup Nat) := match s with
